@@ -20,7 +20,8 @@ SlicesG == {-3, -2, -1, 0, 1, 2, 3, 5}
 MCInit == Init /\ hist = <<>>
 MCNext == Next /\ hist' = Append(hist, [op |-> out'.op, o |-> out'.o, k |-> out'.k, x |-> out'.x, n |-> out'.n])
 MCSpec == MCInit /\ [][MCNext]_<<vars, hist>>
-MCView == objs
+\* the length of the history is part of the state identity so that the depth bound is exact
+MCView == <<objs, Len(hist)>>
 CONSTANT MaxDepth
 Depth == Len(hist) < MaxDepth
 GenPrint == Len(hist) < MaxDepth \/ PrintT(<<"BEHAVIOUR", ToJson(hist)>>)
